@@ -37,6 +37,7 @@ type Config struct {
 	CallRich    bool    // bias statements and expressions towards calls (C20)
 	Enter       bool    // weave a call to the host import enter(i32 funcIndex) into every function entry (ground truth for C20)
 	WASI        bool    // import a few wasi_snapshot_preview1 functions and use them
+	Closer      bool    // import env.closer (i32)->i32: the host closes the CALLING module (exit code 7) when arg&7 == 0, and returns
 }
 
 // DefaultConfig is a medium-size configuration with every feature.
@@ -206,6 +207,12 @@ func (g *gen) module() {
 			g.sigs = append(g.sigs, s)
 			g.out.Funcs = append(g.out.Funcs, FuncInfo{Index: idx, Sig: s, Imported: true, HostName: n})
 		}
+	}
+	if cfg.Closer {
+		s := Sig{P: []byte{I32}, R: []byte{I32}}
+		idx := m.ImportFunc(hostMod, "closer", s.P, s.R)
+		g.sigs = append(g.sigs, s)
+		g.out.Funcs = append(g.out.Funcs, FuncInfo{Index: idx, Sig: s, Imported: true, HostName: "closer"})
 	}
 	if cfg.Lib != nil {
 		ex := cfg.Lib.Exports()
